@@ -3,7 +3,7 @@ import time
 import z3
 from .values import Infeasible, LoopCut, Unsupported, CUR, SBool, SNum, to_bool_term
 
-BRANCH_TIMEOUT_MS = 40000
+BRANCH_TIMEOUT_MS = 20000
 
 
 class Obligation(object):
